@@ -13,6 +13,7 @@ import (
 type Script struct {
 	prelude  strings.Builder // sort / datatype / function declarations
 	body     strings.Builder // definitions, assumptions, obligations (push/pop)
+	cbody    strings.Builder // same definitions/assumptions, reachability covers instead of obligations
 	declared map[string]bool
 	nfresh   int
 	dtOrder  []string
@@ -63,16 +64,16 @@ func (s *Script) declConst(name, sortName string) {
 // bodyConst declares a fresh constant in the body (havoc).
 func (s *Script) havoc(prefix, sortName string) string {
 	n := s.fresh(prefix)
-	fmt.Fprintf(&s.body, "(declare-fun %s () %s)\n", n, sortName)
+	s.emit(fmt.Sprintf("(declare-fun %s () %s)\n", n, sortName))
 	return n
 }
 
 func (s *Script) define(prefix, sortName, term, comment string) string {
 	n := s.fresh(prefix)
 	if comment != "" {
-		fmt.Fprintf(&s.body, "(define-fun %s () %s %s) ; %s\n", n, sortName, term, oneline(comment))
+		s.emit(fmt.Sprintf("(define-fun %s () %s %s) ; %s\n", n, sortName, term, oneline(comment)))
 	} else {
-		fmt.Fprintf(&s.body, "(define-fun %s () %s %s)\n", n, sortName, term)
+		s.emit(fmt.Sprintf("(define-fun %s () %s %s)\n", n, sortName, term))
 	}
 	return n
 }
@@ -90,14 +91,19 @@ func (s *Script) assume(term, comment string) {
 		return
 	}
 	if comment != "" {
-		fmt.Fprintf(&s.body, "(assert %s) ; %s\n", term, oneline(comment))
+		s.emit(fmt.Sprintf("(assert %s) ; %s\n", term, oneline(comment)))
 	} else {
-		fmt.Fprintf(&s.body, "(assert %s)\n", term)
+		s.emit(fmt.Sprintf("(assert %s)\n", term))
 	}
 }
 
+func (s *Script) emit(t string) {
+	s.body.WriteString(t)
+	s.cbody.WriteString(t)
+}
+
 func (s *Script) comment(c string) {
-	fmt.Fprintf(&s.body, "; %s\n", oneline(c))
+	s.emit(fmt.Sprintf("; %s\n", oneline(c)))
 }
 
 // obligation emits push / assert not / check-sat / pop and then assumes it.
@@ -114,12 +120,29 @@ func (s *Script) obligation(id int, guard, phi string, check, wantModel bool) {
 		}
 		fmt.Fprintf(&s.body, "(pop 1)\n")
 	}
-	fmt.Fprintf(&s.body, "(assert %s)\n", full)
+	s.emit(fmt.Sprintf("(assert %s)\n", full))
 }
 
 // cover emits a reachability check: sat expected.
 func (s *Script) cover(id int, cond string) {
-	fmt.Fprintf(&s.body, "(echo \"@@COVER %d\")\n(push 1)\n(assert %s)\n(check-sat)\n(pop 1)\n", id, cond)
+	fmt.Fprintf(&s.cbody, "(echo \"@@COVER %d\")\n(push 1)\n(assert %s)\n(check-sat)\n(pop 1)\n", id, cond)
+}
+
+// TextFor renders the script for one solver; z3 gets per-cover timeouts.
+func (s *Script) TextFor(logic string, z3 bool, defaultMs int) string {
+	return s.Text(logic)
+}
+
+// CoverText: the cover script (obligations are only assumed there).
+func (s *Script) CoverText(logic string) string {
+	var b strings.Builder
+	b.WriteString("(set-option :produce-models true)\n")
+	if logic != "" {
+		fmt.Fprintf(&b, "(set-logic %s)\n", logic)
+	}
+	b.WriteString(s.prelude.String())
+	b.WriteString(s.cbody.String())
+	return b.String()
 }
 
 func (s *Script) Text(logic string) string {
@@ -268,4 +291,15 @@ func sortedKeys[V any](m map[string]V) []string {
 	}
 	sort.Strings(ks)
 	return ks
+}
+
+// idxAt: absolute index of element i of a slice with offset off. The addition is
+// hidden behind an uninterpreted function (axiomatised in the prelude) so that
+// quantifier patterns over slice elements match modulo equality rather than
+// modulo the solver's arithmetic normal forms.
+func idxAt(off, i string) string {
+	if off == "0" {
+		return i
+	}
+	return "(at " + off + " " + i + ")"
 }
